@@ -493,7 +493,9 @@ class Sampler():
                 if self.filepath is not None:
                     self.write_shell_update(self.filepath, shell)
 
-            elif self.n_eff < n_eff:
+            # The effective sample size is not a number if all sampled shells
+            # have zero likelihood. Keep sampling in that case.
+            elif not self.n_eff >= n_eff:
                 shell = np.argmax(self.shell_log_l + self.shell_log_v -
                                   0.5 * np.log(self.shell_n) -
                                   0.5 * np.log(self.shell_n_eff))
